@@ -119,6 +119,29 @@ PROPS = {
         "real": "sweeper.Sweeper (one pass via the guarded VerifSweep wrapper), limitscanner, header parser, LMDB",
         "assumptions": ["the pass's cut-off is taken at the instant the pass is started (no fake time passes inside a scheduler step)"],
     },
+    "C02": {
+        "level": "exploration",
+        "profiles": [{"name": "merge-delivery", "weight": 1}],
+        "rule": "each case is one delivery simulation: a pool of 2-5 versions of 1-2 keys (absent/live/deleted, timestamps from a lattice with ties and 0, "
+                "values incl. empty) is delivered through the real decoder, NativeIterator and strategy.Update to 2-3 replica DBIs in independently drawn orders, "
+                "with duplicates, late re-deliveries, pre-merged groups (associativity) and snapshot format versions 1-3, for stale-deletion cutoffs 0/7/15; "
+                "one run in five exercises the default-timestamp (shadow capture) use; non-trivial = at least two versions in the pool; distinct = distinct "
+                "SHA-256 of the event log",
+        "real": "snapshot.NewDBIFromData/DBI.Next (decoder), syncer.NativeIterator, strategy.Update, header, LMDB",
+        "stub": "transport (delivery order, duplication, grouping drawn from the seed); versions are encoded with the generated reference codec",
+        "assumptions": ["with a stale-deletion cutoff above a deletion in the pool, order-insensitivity is not judged (the cutoff rule depends on presence by design)"],
+    },
+    "C19": {
+        "level": "exploration",
+        "profiles": [{"name": "strategy-sim", "weight": 1}],
+        "rule": "each case is a seeded sequence of 3-12 operations (Update, IterUpdate, EmptyPut with a scripted iterator whose keep/replace/delete decisions are drawn per key; "
+                "raw application puts incl. empty values; aborted transactions; a 96KB map that fills up; unsorted and repeated input keys) against one real LMDB DBI and a "
+                "reference map, over byte keys (0x00/0xff, prefixes), ~500-byte keys, and MDB_INTEGERKEY DBIs with 4- and 8-byte keys incl. 0 and values above 2^31; "
+                "non-trivial = at least two operations committed; distinct = distinct SHA-256 of the event log",
+        "real": "strategy.Update, strategy.IterUpdate, strategy.EmptyPut, iterBoth, setNewVal, LMDB",
+        "stub": "none (no scheduler or clock involved: model-conformance half of the technique)",
+        "assumptions": [],
+    },
 }
 
 ALL_PROFILES = sorted({p["name"] for c in PROPS.values() for p in c["profiles"]})
@@ -175,4 +198,12 @@ MANIFEST_TEXT = {
     "C13": {"text": "One real sweeper pass per run over thousands of generated entries, sliced at scheduler-chosen deadline checks, with application commits "
                     "between slices aimed at the resume key; exact comparison: removed = expired untouched markers, everything else byte-identical, application DBIs untouched in non-native mode.",
             "note": SIM_NOTE, "technique": "deterministic simulation (component, buggified slice deadlines, interleaved application commits) + exact before/after model"},
+    "C02": {"text": "Order, multiplicity and grouping of deliveries are transport behaviour: version pools are delivered to several replicas through the real decode+merge path in "
+                    "independently drawn orders with duplicates and pre-merged groups; replicas that received the same set must agree, no delivery moves a key backwards (a tie "
+                    "replacement a->b forbids b->a), and a losing delivery leaves bytes and LastTxnID untouched.",
+            "note": SIM_NOTE, "technique": "deterministic delivery simulation (seeded order/duplication/grouping) over the real merge path + join oracle"},
+    "C19": {"text": "Seeded operation and fault sequences (abort, map full, unsorted input) against one real DBI with an in-memory reference map; content must equal the scripted "
+                    "iterator's decisions applied in the DBI's own key order; failed operations leave no trace; valid input is never rejected.",
+            "note": "No scheduler or clock is involved; this is the model-conformance half of the technique (seeded sequences, reference model, shrinking, replay).",
+            "technique": "seeded operation/fault sequences against a reference model (simulation without scheduler)"},
 }
